@@ -436,6 +436,36 @@ class Body:
                     out.add((a["switch_bb"], bb))
         return out
 
+    def base_local(self, op):
+        """Local at the root of the place an operand refers to, following refs / moves / pass-through calls."""
+        o = self.origin(op)
+        if o[0] == "place":
+            return o[1]["l"]
+        if o[0] == "multi":
+            return o[1]
+        if o[0] in ("agg", "rv"):
+            return o[2]["lhs"]["l"]
+        if o[0] == "call":
+            return o[2]["dest"]["l"]
+        return None
+
+    def calls_with_mut_ref_to(self, local):
+        """Call sites that receive `&mut local` (or a reborrow of it): [(bb, term, operand index)]"""
+        out = []
+        for i in sorted(self.reach):
+            t = self.term(i)
+            if t["k"] != "call":
+                continue
+            for k, o in enumerate(t["ops"]):
+                if o["k"] == "const":
+                    continue
+                ty = self.locals[o["pl"]["l"]]["ty"] if not o["pl"]["p"] else ""
+                if not ty.startswith("&mut"):
+                    continue
+                if self.base_local(o) == local:
+                    out.append((i, t, k))
+        return out
+
     # ------------------------------------------------------------------ calls
     def calls(self, name_regex=None):
         r = re.compile(name_regex) if name_regex else None
@@ -692,3 +722,116 @@ def _place_key(pl):
         else:
             parts.append("?")
     return ".".join(parts)
+
+
+def symex(body, x, depth=0):
+    """Small symbolic expression of an operand / place by following single whole-definitions:
+    ('const', v) ('uneval', def, self_ty, eval) ('bin', op, a, b) ('un', op, a) ('cast', ty, a)
+    ('call', name, [args]) ('place', pretty, fields, downcasts) ('agg', variant, [ops]) ('?',)"""
+    if depth > 25 or x is None:
+        return ("?",)
+    if x.get("k") == "const":
+        if x.get("uneval"):
+            u = x["uneval"]
+            return ("uneval", u["def"], u.get("self_ty"), u["eval"])
+        return ("const", x["val"])
+    pl = x["pl"] if "pl" in x else x
+    proj = [p for p in pl["p"] if p != "deref"]
+    ds = body.whole_defs(pl["l"])
+    if len(ds) == 1 and ds[0][0] == "stmt":
+        rv = ds[0][3]["rv"]
+        if not proj:
+            return _symex_rv(body, rv, depth)
+        if len(proj) == 1 and isinstance(proj[0], dict) and proj[0].get("f") == 0 and rv["k"] == "bin" and rv["checked"]:
+            return _symex_rv(body, rv, depth)
+        if rv["k"] in ("use", "ref"):
+            src = rv["op"] if rv["k"] == "use" else rv
+            if src.get("k") != "const":
+                sp = src["pl"]
+                return symex(body, {"l": sp["l"], "p": list(sp["p"]) + proj}, depth + 1)
+    if len(ds) == 1 and ds[0][0] == "call" and not proj:
+        t = ds[0][2]
+        return ("call", callee_resolved(t) or "?", [symex(body, o, depth + 1) for o in t["ops"]])
+    fields = place_fields(pl)
+    downs = [p["dc"] for p in pl["p"] if isinstance(p, dict) and "dc" in p]
+    # continue through the base local for context (variant downcasts of the scrutinee)
+    base_fields, base_downs = [], []
+    if len(ds) == 1 and ds[0][0] == "stmt" and ds[0][3]["rv"]["k"] in ("use", "ref"):
+        pass
+    from facts import pplace
+    return ("place", pplace(pl), tuple(fields), tuple(downs), pl["l"])
+
+
+def _symex_rv(body, rv, depth):
+    k = rv["k"]
+    if k == "use":
+        return symex(body, rv["op"], depth + 1)
+    if k == "ref":
+        return symex(body, rv["pl"], depth + 1)
+    if k == "cast":
+        return ("cast", rv["ty"], symex(body, rv["op"], depth + 1))
+    if k == "bin":
+        return ("bin", rv["op"], symex(body, rv["a"], depth + 1), symex(body, rv["b"], depth + 1))
+    if k == "un":
+        return ("un", rv["op"], symex(body, rv["a"], depth + 1))
+    if k == "agg":
+        return ("agg", rv.get("variant") or rv.get("what"), [symex(body, o, depth + 1) for o in rv["ops"]])
+    if k == "discr":
+        return ("discr", symex(body, rv["pl"], depth + 1))
+    return ("?",)
+
+
+def sym_fold(e):
+    """Integer value of a symbolic expression if constant."""
+    if e[0] == "const":
+        v = e[1]
+        if isinstance(v, bool):
+            return int(v)
+        return v if isinstance(v, int) else None
+    if e[0] == "uneval":
+        return e[3] if isinstance(e[3], int) else None
+    if e[0] == "cast":
+        return sym_fold(e[2])
+    if e[0] == "bin":
+        a, b = sym_fold(e[2]), sym_fold(e[3])
+        if a is None or b is None:
+            return None
+        return {"Add": a + b, "Sub": a - b, "Mul": a * b, "Shl": a << b if 0 <= b < 256 else None, "Shr": a >> b if 0 <= b < 256 else None,
+                "BitOr": a | b, "BitAnd": a & b, "BitXor": a ^ b}.get(e[1])
+    return None
+
+
+def sym_or_terms(e):
+    """Flatten an or-tree into [(expr, shift)] leaves: `(a << 24) | (b << 8)` -> [(a,24),(b,8)]."""
+    if e[0] == "cast":
+        return sym_or_terms(e[2])
+    if e[0] == "bin" and e[1] in ("BitOr", "Add", "BitXor"):
+        return sym_or_terms(e[2]) + sym_or_terms(e[3])
+    if e[0] == "bin" and e[1] == "Shl":
+        k = sym_fold(e[3])
+        if k is not None:
+            return [(x, s + k) for x, s in sym_or_terms(e[2])]
+    if e[0] == "bin" and e[1] == "Mul":
+        k = sym_fold(e[3])
+        if k is not None and k > 0 and (k & (k - 1)) == 0:
+            return [(x, s + k.bit_length() - 1) for x, s in sym_or_terms(e[2])]
+    return [(e, 0)]
+
+
+def sym_leaves(e, out=None):
+    """All place / uneval / const leaves of an expression."""
+    if out is None:
+        out = []
+    if e[0] in ("place", "uneval", "const"):
+        out.append(e)
+    elif e[0] in ("bin",):
+        sym_leaves(e[2], out)
+        sym_leaves(e[3], out)
+    elif e[0] in ("cast", "un"):
+        sym_leaves(e[2], out)
+    elif e[0] == "discr":
+        sym_leaves(e[1], out)
+    elif e[0] in ("call", "agg"):
+        for a in e[2]:
+            sym_leaves(a, out)
+    return out
